@@ -155,6 +155,21 @@ func (e *Engine) registerCore() {
 		p.res.Reached = append(p.res.Reached, p.constStrArg(a[0], "vrt.Reach label"))
 		return nil
 	}
+	// vrt.PermuteMaps(on): from here on every `range` over a map takes its
+	// iteration order from a nondeterministic choice (all orders are explored)
+	I["vrt.PermuteMaps"] = func(p *Path, a []Value, site ssa.Instruction) Value {
+		p.side["permute"] = a[0].(BoolV).T.IsTrue()
+		return nil
+	}
+	I["vrt.Repeat"] = func(p *Path, a []Value, site ssa.Instruction) Value { return mkInt(1) }
+	I["golang.org/x/exp/maps.Keys"] = func(p *Path, a []Value, site ssa.Instruction) Value {
+		it := p.mkRange(a[0], site).(*RangeIter)
+		if len(it.Keys) == 0 {
+			return SliceV{Arr: p.newObj(nil, ArrayV{}), Len: 0, Cap: 0}
+		}
+		o := p.newObj(nil, ArrayV{E: append([]Value{}, it.Keys...)})
+		return SliceV{Arr: o, Len: len(it.Keys), Cap: len(it.Keys)}
+	}
 	I["vrt.MustReach"] = func(p *Path, a []Value, site ssa.Instruction) Value {
 		p.res.Required = append(p.res.Required, p.constStrArg(a[0], "vrt.MustReach label"))
 		return nil
